@@ -27,7 +27,9 @@ LEVEL_TEXT = ('Lean theorems: for every instruction class (any table, any shape)
               'through direct construction, the text assembler and the SDK.')
 LEVEL_NOTE = ('Trusted: Lean kernel; translator + harness. The text route uses the canonical rendering written '
               'by the harness (the parser itself is the subject of C17); the SDK route covers rot_X/Y/Z, '
-              'measure(basis_rotations / named bases) on vanilla and NV, insert_breakpoint (enum and raw values) '
+              'measure(basis_rotations / named bases) on vanilla and NV, insert_breakpoint (enum and raw values), every '
+              'integer-taking entry point of the SDK surface (new_register, Qubit(virtual_address), arrays, loops, '
+              'branches, futures, EPR arguments) '
               'and app ids. The vanilla opcode clash (in-range meas_basis decodes as '
               'mov) is finding F1 of C01 and involves no out-of-range operand; it is counted, not judged, here. '
               'The model encoder is a pure function; that the real one has no call-order / module-state dependence '
@@ -395,6 +397,42 @@ def run(ctx):
         if len(res.samples) < 6 and bad and res.evaluations % 97 == 0:
             res.samples.append({"route": "sdk", "fl": fname, "hw": hw, "call": f"{meth}(n={n}, d={d})",
                                 "raises": exc, "model": m.get("b")})
+    # every integer-taking entry point of the SDK surface (registers, qubit addresses, arrays, loops,
+    # branches, futures, EPR arguments ...): a fresh connection per probe; first with an in-range marker to
+    # learn whether the parameter reaches the subroutine at all, then with out-of-range values: the flush
+    # must raise, or the committed program must carry exactly the given value -- never a wrapped one
+    MARK = 12345
+    oor = [2 ** 32 + 5, 2 ** 31, -2 ** 31 - 1, 2 ** 64, 2 ** 32 + 2 ** 31 + 7]
+    if thorough:
+        oor += [10 ** 20, -2 ** 32 - 5, 2 ** 33, 2 ** 32]
+    setm = ctx.driver.batch([{"op": "codec.encode", "fl": "vanilla",
+                              "i": {"c": "core.SetInstruction", "o": [{"r": [0, 0]}, {"i": v}]}} for v in oor])
+    for v, m in zip(oor, setm):
+        if m.get("b") is not None:
+            res.disagreements.append({"stream": "reject.sdk-int", "input": v, "model": m.get("b"),
+                                      "code": "model encodes a value the harness calls out of range"})
+    for pname, width, body in R.sdk_int_probes():
+        subs, exc, _raws = R.run_sdk_int_probe(pname, body, MARK)
+        res.evaluations += 1
+        if subs is None or MARK not in R.all_ints_of(subs):
+            res.count("sdk-int:not-in-program" if subs is not None else "sdk-int:marker-raises")
+            continue
+        for v in oor:
+            res.evaluations += 1
+            res.nontrivial.add(("sdk-int", pname, v))
+            subs, exc, _raws = R.run_sdk_int_probe(pname, body, v)
+            res.count("sdk-int:" + ("rejected" if subs is None else "flushed"))
+            if subs is None:
+                continue
+            ints = R.all_ints_of(subs)
+            if v not in ints:
+                wrapped = ((v + 2 ** 31) % 2 ** 32) - 2 ** 31
+                _mk(res, "an out-of-range integer given to the SDK is flushed without error and the program "
+                         "does not carry it (silently altered)",
+                    {"sdk_call": pname, "value": v, "value_mod_2^32_signed": wrapped,
+                     "wrapped_value_in_program": wrapped in ints,
+                     "program": [[str(i) for i in __import__("netqasm.lang.parsing.binary", fromlist=["d"]
+                                                            ).deserialize(sb).instructions][:12] for sb in subs][:2]})
     # measurement bases and app ids through the SDK
     vals8 = [0, 1, 24, 255, 256, 257, 300, 65536 + 3, 10 ** 20, -1, -256]
     rots = [(0, 0, 0), (255, 255, 255), (8, 24, 31)]
